@@ -36,8 +36,7 @@ ALL_OPTS = [dict(math_mode=m, strict_latex_spaces=s, keep_comments=c, keep_brace
 # LatexNodes2Text): aliases, None, dictionaries (also nested for equations), the deprecated
 # spellings that are "still accepted", small / large fill widths, minimum group length
 EXTRA_OPTS = [
-    {'strict_latex_spaces': 'default'}, {'strict_latex_spaces': 'on'},
-    {'strict_latex_spaces': 'off'}, {'strict_latex_spaces': None},
+    {'strict_latex_spaces': 'default'},
     {'strict_latex_spaces': {'between-macro-and-chars': True}},
     {'strict_latex_spaces': {'after-comment': True, 'between-latex-constructs': True}},
     {'strict_latex_spaces': {'in-equations': {'between-macro-and-chars': True}}},
@@ -47,7 +46,7 @@ EXTRA_OPTS = [
     {'keep_braced_groups': True, 'keep_braced_groups_minlen': 0},
     {'keep_braced_groups': True, 'keep_braced_groups_minlen': 3},
     {'fill_text': 1}, {'fill_text': 2}, {'fill_text': 5}, {'fill_text': 200},
-    {'fill_text': False}, {'text_replacements': []},
+    {'text_replacements': []},
     {'math_mode': 'verbatim', 'keep_comments': True, 'fill_text': 3},
     {},
 ]
@@ -349,6 +348,14 @@ def run_inputs(res):
                                 out = conv.latex_to_text(src)
                     except monitor.NonTermination as e:
                         res.fail(monitor.nonterm_key(e), 'does not terminate on %r' % src, case)
+                        continue
+                    except (IOError, OSError) as e:
+                        if how != 'override':
+                            # file lookup "may generate a warning or raise an error": the
+                            # directory modes only demand that nothing else goes wrong
+                            res.label('input:file-lookup-raised')
+                            continue
+                        res.fail(exc_key(e), exc_detail(e) + ' on %r (%s)' % (src, how), case)
                         continue
                     except Exception as e:
                         res.fail(exc_key(e), exc_detail(e) + ' on %r (%s)' % (src, how), case)
